@@ -230,3 +230,42 @@ pub fn enc_protocol_n2_skip() {
 pub fn enc_protocol_n0_marker() {
     encoder_protocol::<0, 0>()
 }
+
+//@ harness props=C04,C12 tier=quick unwind=16 unwindset=RecSink.*write_all:16 mem_gb=4 timeout=600
+//@ bound: Encoder::from_stream into a sink accepting at most 3 bytes per write call, the three header options (symbolic size): the whole header reaches the sink
+#[cfg_attr(kani, kani::proof)]
+#[cfg_attr(kani, kani::stub(std::fmt::format, crate::verif_common::stub_format))]
+#[cfg_attr(kani, kani::stub(std::io::Error::is_interrupted, crate::verif_common::stub_not_interrupted))]
+pub fn enc_header_short_sink() {
+    let mut t = Tape::<16>::new();
+    let size_v = t.u64();
+    let opt = t.u8() % 3;
+    let opts = crate::compress::Options {
+        unpacked_size: match opt {
+            0 => UnpackedSize::WriteToHeader(None),
+            1 => UnpackedSize::WriteToHeader(Some(size_v)),
+            _ => UnpackedSize::SkipWritingToHeader,
+        },
+    };
+    let mut sink = RecSink::<16>::new();
+    sink.short = 3;
+    let ok = {
+        let r = Encoder::from_stream(&mut sink, &opts);
+        let ok = r.is_ok();
+        forget(r);
+        ok
+    };
+    vassert!(ok, "encoder header: succeeds on a sink that accepts partial writes");
+    vassert!(sink.len == if opt == 2 { 5 } else { 13 }, "encoder header: every header byte reaches a sink that accepts only part of each write");
+    vassert!(sink.buf[0] == 0x5D && sink.buf[3] == 0x80, "encoder header: properties and dictionary size");
+    if opt == 1 {
+        let b = size_v.to_le_bytes();
+        let q = (t.u8() % 8) as usize;
+        vassert!(sink.buf[5 + q] == b[q], "encoder header: size field complete and in order");
+    }
+    if opt == 0 {
+        let q = (t.u8() % 8) as usize;
+        vassert!(sink.buf[5 + q] == 0xFF, "encoder header: all-ones size field complete");
+    }
+    vcover!(opt == 1, "size_written");
+}
